@@ -86,7 +86,9 @@ def extract(repo=None):
     out["oerLengthLimitedByRsizeMax"] = bool(re.search(r"len\s*>\s*RSIZE_MAX", ol))
     # zero-width element guards
     su = strip_comments(dict(functions(os.path.join(sk, "constr_SET_OF.c"))).get("SET_OF_decode_uper", ""))
-    g = re.search(r"rv\.consumed\s*==\s*0\s*&&\s*nelems\s*>\s*(\d+)\s*\)\s*\{[^}]*ASN__DECODE_FAILED", su)
+    # (F47 repaired) the guard compares the stream position before and after the element decoder, not rv.consumed:
+    # `size_t moved = pd->moved;` ... uper_decoder(...) ... `if(pd->moved == moved && nelems > N) ASN__DECODE_FAILED`
+    g = re.search(r"moved\s*=\s*pd->moved\s*;.*?->uper_decoder\s*\(.*?if\s*\(\s*pd->moved\s*==\s*moved\s*&&\s*nelems\s*>\s*(\d+)\s*\)\s*\{[^}]*ASN__DECODE_FAILED", su, re.S)
     out["zeroWidthLimitUper"] = int(g.group(1)) if g else None
     so = strip_comments(dict(functions(os.path.join(sk, "constr_SET_OF_oer.c"))).get("SET_OF_decode_oer", ""))
     g = re.search(r"rv\.consumed\s*==\s*0\s*&&\s*base_ptr\s*==\s*ptr\s*&&\s*\(base_ctx_left\s*-\s*ctx->left\)\s*>\s*(\d+)\s*\)\s*\{[^}]*ASN__DECODE_FAILED", so)
@@ -148,7 +150,7 @@ def render(x):
     L.append(f"def rssizeMax : Option Nat := {lean_optnat(x['rssizeMax'])}")
     L.append(f"def berLengthLimitedByRssizeMax : Bool := {lean_bool(x['berLengthLimitedByRssizeMax'])}")
     L.append(f"def oerLengthLimitedByRsizeMax : Bool := {lean_bool(x['oerLengthLimitedByRsizeMax'])}")
-    L.append("/-- the `rv.consumed == 0 && nelems > N` guard of SET_OF_decode_uper (none = guard not found) -/")
+    L.append("/-- the `pd->moved == moved && nelems > N` guard of SET_OF_decode_uper, `moved` taken before the element decoder (none = guard not found) -/")
     L.append(f"def zeroWidthLimitUper : Option Nat := {lean_optnat(x['zeroWidthLimitUper'])}")
     L.append("/-- the `rv.consumed == 0 && base_ptr == ptr && (base_ctx_left - ctx->left) > N` guard of SET_OF_decode_oer -/")
     L.append(f"def zeroWidthLimitOer : Option Nat := {lean_optnat(x['zeroWidthLimitOer'])}")
